@@ -79,7 +79,7 @@ def check_table(res, repo):
             res.errors.append(f"_build_indicator no longer contains `{need}` (reader of the table changed; re-derive the rule)")
 
 
-def check_binding(res, repo, prop="C08"):
+def check_binding(res, repo, prop="C08", raw_required=True):
     rule = "R-BIND"
     vi = repo.method("hexital.core.hexital", "Hexital", "_validate_indicators")
     fn = vi.node
@@ -109,7 +109,7 @@ def check_binding(res, repo, prop="C08"):
     first = c.args[0] if c.args else next((k.value for k in c.keywords if k.arg == "candles"), None)
     from ..ownership import check_raw_copies
 
-    check_raw_copies(prop, res, repo, want=("validate",))
+    check_raw_copies(prop, res, repo, want=("validate",), raw_required=raw_required)
     kws = {k.arg: ast.unparse(k.value) for k in c.keywords}
     want = {"candles_lifespan": "self.candles_lifespan", "timeframe_fill": "self.timeframe_fill", "candlestick_type": "self.candlestick_type"}
     for k, v in want.items():
